@@ -823,6 +823,10 @@ def peval(view, env, max_paths=400, effects=False):
             e = simplify(_SubstNames(loc).visit(_clone(v))) if v is not None else None
             emit("return", e, handler, eff)
             paths += 1
+            # evaluating the returned expression may raise into an enclosing handler (`try: return a <= b  except TypeError: ..`)
+            for b, lab in cfg.succ.get(nid, []):
+                if lab == "exc":
+                    stack.append((b, loc, handler, visits, eff))
             continue
         if n.kind == "raise":
             emit("raise", getattr(n.ast, "exc", None), handler, eff)
